@@ -616,6 +616,9 @@ impl Chooser for RandomChooser {
             match (self.policy.as_str(), c) {
                 ("messages_first", 'D') => 20.0,
                 ("messages_first", _) => 1.0,
+                ("failures_first", 'F') if s.ends_with(":fail") => 30.0,
+                ("failures_first", 'G') => 0.3,
+                ("failures_first", _) => 1.0,
                 ("completions_first", 'F') => 20.0,
                 ("completions_first", _) => 1.0,
                 ("edits_first", 'E') | ("edits_first", 'N') => 10.0,
